@@ -7,6 +7,8 @@ def stages(tier):
          "timeout": 300, "timeout_thorough": 1800},
         {"name": "e2e", "cmd": "relay", "args": ["-prop", "C08"], "check": "Check.Relay.check_e2e",
          "timeout": 300, "timeout_thorough": 1800},
+        {"name": "multistep", "cmd": "relayx", "args": ["-prop", "C08x"], "check": "multi-step relay scenarios: 416 retry consistency, failed-revalidation fallback (direct)",
+         "timeout": 300, "timeout_thorough": 1200},
     ]
 
 
